@@ -23,3 +23,16 @@ func (c *Ctx) dumpCells(tag string, st *ai.State, o *ai.Object) {
 		fmt.Printf("  [%s] %s%s = %s\n", tag, o.Name, k, ai.ValueString(cells[k]))
 	}
 }
+
+// DebugPPU prints one step of the PPU model (debugging aid).
+func DebugPPU(c *Ctx, T, mode, ly int64, first bool) []string {
+	m := c.ppuModel()
+	var out []string
+	out = append(out, fmt.Sprintf("errors=%v heavy=%d enabled=%s", m.Errors, len(m.Heavy), m.Enabled))
+	for f := range m.Heavy {
+		out = append(out, "heavy "+fnName(f))
+	}
+	st := m.step(ppuState{T: T, Mode: mode, LY: ly, FirstLine: first})
+	out = append(out, fmt.Sprintf("%+v", *st))
+	return out
+}
